@@ -117,7 +117,16 @@ func (rw *RuntimeErrorWrapper) Error() string {
 		code = werr.Code
 	}
 
-	callStack := rw.vm.GetCallStack()
+	// a handler (拦截) runs in place of the body it belongs to: the frame of that body still
+	// records the line of the fault that has been handled, which is not where we are now
+	var callStack []*r.CallFrame
+	allFrames := rw.vm.GetCallStack()
+	for i, frame := range allFrames {
+		if i+1 < len(allFrames) && allFrames[i+1].IsExceptionCallFrame() && allFrames[i+1].GetModule() == frame.GetModule() {
+			continue
+		}
+		callStack = append(callStack, frame)
+	}
 	if len(callStack) > 0 {
 		// append head lines
 		headTrace := callStack[0]
